@@ -50,10 +50,84 @@ def _match(call: ast.Call, pat: str) -> bool:
     return d == pat
 
 
+class _NameReader(GateReader):
+    """a constructor evaluated for its one effect that matters here: the name it hands to the SymPy base constructor"""
+
+    def __init__(self, module, where, pat, idx):
+        super().__init__(module, where)
+        self.pat, self.idx = pat, idx
+        self.fresh = 0
+        self.names: list = []
+        self.prefixes: list = []
+
+    def hook_call(self, n, env, fns):
+        d = dotted(n.func) or ""
+        if d.split(".")[-1] == "next_name" and len(n.args) == 1:  # the generator itself is the business of N2 / I3
+            pre = self.ev(n.args[0], env, fns)
+            literal = isinstance(n.args[0], ast.Constant) and isinstance(n.args[0].value, str)
+            self.fresh += 1
+            self.prefixes.append(pre if literal else None)
+            return ("fresh-name", pre if literal else None, self.fresh)
+        if d == self.pat:
+            args = [self.ev(a, env, fns) for a in n.args]
+            for k in n.keywords:
+                self.ev(k.value, env, fns)
+            self.names.append(args[self.idx] if len(args) > self.idx else None)
+            return Obj("built", {}, "built")
+        return super().hook_call(n, env, fns)
+
+
+def _n1_constructor(run: Run, modname: str, path: str, pat: str, idx: int) -> list:
+    """N1 for a class constructor, by evaluation: whatever is passed as display name, the name given to the SymPy base constructor is a fresh next_name(<literal>);
+    the one exception is an IndexedSymbol re-created by SymPy from an existing SymPy symbol, which keeps that symbol"""
+    from .c11 import _methods_module
+    m = run.src.need(modname)
+    cname = path.split(".")[0]
+    mm = _methods_module(m, cname)
+    fdef = next((x for x in mm.body if isinstance(x, ast.FunctionDef) and x.name == "__new__"), None)
+    run.require(fdef is not None, f"{modname}:{path} not found")
+    first_param = (fdef.args.args[1].arg if len(fdef.args.args) > 1 else None)
+    existing = Obj("Symbol", {"name": "EXISTING"}, "existing sympy symbol")
+    cases = [("no display name", []), ("display name d1", ["d1"]), ("display name d2", ["d2"])]
+    if cname == "IndexedSymbol":
+        cases.append(("an existing SymPy symbol", [existing]))
+    found = []
+    for label, args in cases:
+        run.ob("N1", f"{cname}.__new__:{label}")
+        R = _NameReader(mm, f"{cname}.__new__", pat, idx)
+        try:
+            R.call("__new__", [("class", cname)] + list(args))
+            problem = None
+        except Raised as r:
+            problem = f"raises {r.exc}"
+        if not problem:
+            if len(R.names) != 1:
+                problem = f"calls {pat} {len(R.names)} time(s)"
+            else:
+                nm = R.names[0]
+                if args and args[0] is existing:
+                    if nm is not existing and not (isinstance(nm, tuple) and nm and nm[0] == "fresh-name" and nm[1] is not None):
+                        problem = f"gives {pat} the name {nm!r} for an existing SymPy symbol: neither that symbol nor a fresh next_name(<literal>)"
+                elif not (isinstance(nm, tuple) and nm and nm[0] == "fresh-name"):
+                    problem = (f"gives {pat} the internal name {nm!r}, which is not a fresh next_name(<literal>): two objects may get the same SymPy name and alias "
+                               f"(the name must not depend on the display name)")
+                elif nm[1] is None:
+                    problem = f"draws the internal name from next_name(<not a literal prefix>): the prefix must not depend on the arguments"
+                else:
+                    found.append(nm[1])
+        if problem:
+            run.violate("N1", f"{modname}:{path}:{pat}:{label}", m, m.tree, f"{cname}({label}): the constructor {problem}")
+    run.sample({"site": f"{modname}:{path}", "constructor": pat, "prefixes": sorted(set(found))})
+    return sorted(set(found))
+
+
 def _n1(run: Run, w: World) -> None:
     run.rule("N1", "the internal name handed to the SymPy base constructor is next_name(<literal>) on every path, independent of display names")
     prefixes = []
     for modname, path, pat, idx in N1_SITES:
+        if path.endswith(".__new__"):
+            prefixes += _n1_constructor(run, modname, path, pat, idx)
+            continue
         f = Fn(w, modname, path)
         calls = [(n, c) for n in f.cfg.stmt_nodes() for c in node_calls(n) if _match(c, pat)]
         run.require(bool(calls), f"{modname}:{path} no longer calls {pat}")
